@@ -129,7 +129,7 @@ tab('hexdigits', r'hexdigits\[\]\s*=\s*\{([^}]*)\}', 'radsecproxy.c', 'char2hex 
 def lit(name, pattern, fname, what):
     def f():
         v = need(pattern, fname, what)
-        put(name, v if re.fullmatch(r'\d+', v) else defs[v])
+        put(name, int(v, 0) if re.fullmatch(r'(0[xX][0-9a-fA-F]+|\d+)', v) else defs[v])
     try:
         attempt(f)
     except KeyError:
@@ -146,8 +146,8 @@ else:
 lit('MPPE_MIN', r'msmpprecrypt\s*\([^)]*\)\s*\{\s*if\s*\(len\s*<\s*(\d+)', 'radsecproxy.c', 'msmpprecrypt guard')
 lit('LOGSTATIONID_SIZE', r'logstationid\[(\d+)\]', 'radsecproxy.c', 'logstationid[]')
 lit('UDP_CLIENT_EXPIRY', r'expiry\s*=\s*now\.tv_sec\s*\+\s*(\d+)', 'udp.c', 'udp client expiry')
-lit('ESC_LOW', r'radattr2ascii.*?v\[i\]\s*<\s*(\d+)\s*\|\|', 'radsecproxy.c', 'radattr2ascii low bound')
-lit('ESC_HIGH', r'radattr2ascii.*?v\[i\]\s*>\s*(\d+)\)', 'radsecproxy.c', 'radattr2ascii high bound')
+lit('ESC_LOW', r'radattr2ascii.*?v\[i\]\s*<\s*(0[xX][0-9a-fA-F]+|\d+)\s*\|\|', 'radsecproxy.c', 'radattr2ascii low bound')
+lit('ESC_HIGH', r'radattr2ascii.*?v\[i\]\s*>\s*(0[xX][0-9a-fA-F]+|\d+)\)', 'radsecproxy.c', 'radattr2ascii high bound')
 lit('RADMSG2BUF_MAX', r'radmsg2buf\s*\([^)]*\)\s*\{.*?if\s*\(size\s*>\s*([A-Za-z_0-9]+)\)', 'radmsg.c', 'radmsg2buf size bound')
 
 # per-transport protodefs defaults
